@@ -9,6 +9,7 @@ import (
 	"encoding/json"
 	"fmt"
 	"net/http"
+	"net/http/httptest"
 	"os"
 	"os/exec"
 	"path/filepath"
@@ -673,6 +674,96 @@ func rounds(c *run.Ctx, s *kit.Summary, r *kit.Rng, nStatic, nStream int, withDr
 	}
 }
 
+// ---------------------------------------------------------------- the real command, lazily, many times
+
+type cliCase struct {
+	Format string `json:"format"`
+	Runs   int    `json:"runs"` // how many runs a replay repeats
+}
+
+// cliLazyRuns: many short runs of the real `vegeta attack -lazy` with 16 workers at unlimited
+// rate over a fresh 3-target file, against one long-lived local server that counts the requests
+// per path: within each run every target must be requested exactly once (the lazily read stream
+// is handed out exactly once under concurrent workers).
+func cliLazyRuns(c *run.Ctx, s *kit.Summary, format string, runs, parallel int) {
+	if _, err := os.Stat(c.Vegeta); err != nil {
+		s.Skipped["cli:no_vegeta_binary"]++
+		return
+	}
+	var mu sync.Mutex
+	counts := map[string]int{}
+	srv := httptest.NewServer(http.HandlerFunc(func(w http.ResponseWriter, rq *http.Request) {
+		mu.Lock()
+		counts[rq.URL.Path]++
+		mu.Unlock()
+	}))
+	defer srv.Close()
+	dir := filepath.Join(c.Work, "cli_"+format)
+	os.MkdirAll(dir, 0o755)
+	var vmu sync.Mutex
+	reported := false
+	var wg sync.WaitGroup
+	next := make(chan int)
+	for w := 0; w < parallel; w++ {
+		wg.Add(1)
+		go func(w int) {
+			defer wg.Done()
+			for id := range next {
+				prefix := fmt.Sprintf("/%s/r%d", format, id)
+				paths := []string{prefix + "/t0", prefix + "/t1", prefix + "/t2"}
+				var src bytes.Buffer
+				if format == "http" {
+					for _, p := range paths {
+						src.WriteString("GET " + srv.URL + p + "\n")
+					}
+				} else {
+					enc := vegeta.NewJSONTargetEncoder(&src)
+					for _, p := range paths {
+						enc.Encode(&vegeta.Target{Method: "GET", URL: srv.URL + p})
+					}
+				}
+				tf := filepath.Join(dir, fmt.Sprintf("targets_%d", w))
+				os.WriteFile(tf, src.Bytes(), 0o644)
+				ctx, cancel := context.WithTimeout(context.Background(), 30*time.Second)
+				cmd := exec.CommandContext(ctx, c.Vegeta, "attack", "-lazy", "-rate=0", "-workers=16", "-max-workers=16",
+					"-keepalive=false", "-dns-ttl=-1", "-duration=0", "-targets", tf, "-format", format, "-output", os.DevNull)
+				cmd.Env = append(os.Environ(), "VEGETA_VERIF_DRIVER=")
+				out, err := cmd.CombinedOutput()
+				cancel()
+				mu.Lock()
+				got := []int{counts[paths[0]], counts[paths[1]], counts[paths[2]]}
+				for _, p := range paths {
+					delete(counts, p)
+				}
+				mu.Unlock()
+				vmu.Lock()
+				s.Count("cli:lazy_runs_" + format)
+				if (got[0] != 1 || got[1] != 1 || got[2] != 1) && !reported {
+					reported = true
+					s.Violate(kit.Violation{Kind: "cli_lazy_not_exactly_once",
+						What:     "vegeta attack -lazy with 16 workers did not request every target of the file exactly once",
+						Input:    cliCase{Format: format, Runs: 3000},
+						Expected: "requests per target: [1 1 1]", Observed: fmt.Sprintf("run %d: requests per target %v (exit error %v; output %s)", id, got, err, tail(string(out), 200)),
+						Key: map[string]interface{}{"format": format}})
+				}
+				vmu.Unlock()
+			}
+		}(w)
+	}
+	for id := 0; id < runs; id++ {
+		vmu.Lock()
+		stop := reported
+		vmu.Unlock()
+		if stop {
+			break
+		}
+		next <- id
+	}
+	close(next)
+	wg.Wait()
+	s.Case("cli:"+format, true)
+}
+
 func harnessDir() string {
 	if exe, err := os.Executable(); err == nil {
 		d := filepath.Join(filepath.Dir(exe), "..", "harness")
@@ -759,6 +850,15 @@ func replayC15(c *run.Ctx, s *kit.Summary) {
 	if err := json.Unmarshal(b, &rec); err != nil {
 		panic(err)
 	}
+	if strings.HasPrefix(rec.Kind, "cli_") {
+		var cc cliCase
+		json.Unmarshal(rec.Input, &cc)
+		if cc.Runs <= 0 {
+			cc.Runs = 3000
+		}
+		cliLazyRuns(c, s, cc.Format, cc.Runs, 8)
+		return
+	}
 	if strings.HasPrefix(rec.Kind, "static") {
 		var sc staticCase
 		json.Unmarshal(rec.Input, &sc)
@@ -797,6 +897,9 @@ func runC15(c *run.Ctx, s *kit.Summary) {
 		return
 	}
 	rounds(c, s, r, c.N(150, 5000), c.N(150, 5000), true)
+	// the real command: -lazy, 16 workers, unlimited rate, many short runs
+	cliLazyRuns(c, s, "http", c.N(1200, 6000), 8)
+	cliLazyRuns(c, s, "json", c.N(1200, 6000), 8)
 	if !hung {
 		raceRun(c, s)
 	}
